@@ -88,12 +88,18 @@ class LGen(solvecheck.Gen):
             else:
                 rhs = I(r.randint(0, 3 * max(1, n)))
             return {"k": "expr", "e": B(r.choice(["eq", "le", "lt", "ge", "gt"]), {"k": "sum", "l": li}, rhs)}
-        if c < 0.68:
+        if c < 0.6:
+            # product: 64 bits wide whatever the elements
+            return {"k": "expr", "e": B(r.choice(["eq", "le", "ge", "ne"]), {"k": "product", "l": li}, I(r.randint(0, 12)))}
+        if c < 0.64 and len(ls) >= 2:
+            # unique_vec over two lists (equal lengths are the legal use; unequal ones must be rejected by both sides)
+            return {"k": "unique_vec", "ls": [0, 1]}
+        if c < 0.7:
             es = [{"k": "lref", "l": li}]
             if fs and r.random() < 0.4:
                 es.insert(0, F(r.randrange(len(fs))))
             return {"k": "unique", "es": es}
-        if c < 0.8 and fs:
+        if c < 0.82 and fs:
             return {"k": "expr", "e": {"k": r.choice(["inl", "inl", "notinl"]), "e": F(r.randrange(len(fs))), "l": li}}
         if c < 0.9 and n >= 2 and not l["randsz"]:
             a, b = r.sample(range(n), 2)
@@ -118,6 +124,11 @@ class LGen(solvecheck.Gen):
                 f["w"] = 4
                 f["val"] = max(min(f["val"], 7), -8 if f["s"] else 0)
         ls = self.lists(randsz_p)
+        if len(ls) >= 2 and not ls[0]["randsz"] and not ls[1]["randsz"] and r.random() < 0.7:
+            # equal lengths (the legal use of unique_vec)
+            n = len(ls[0]["init"])
+            lo, hi = (-(1 << (ls[1]["w"] - 1)), (1 << (ls[1]["w"] - 1)) - 1) if ls[1]["s"] else (0, (1 << ls[1]["w"]) - 1)
+            ls[1]["init"] = [r.randint(lo, hi) for _ in range(n)]
         stmts = []
         for _ in range(r.randint(1, 3)):
             stmts.append(self.list_stmt(fs, ls) if r.random() < 0.8 else self.stmt(fs, 1))
@@ -287,11 +298,13 @@ def _worker(args):
                 if rec["outcome"] == "exception":
                     sig = exc_signature(scn, rec)
                     # a statement that indexes past the end of its list is rejected by both (IndexError): the program's error
-                    if not (m["__err__"] == "IndexError" and sig.startswith("internal-exception:IndexError") and not sig.endswith(":F47")):
+                    both_reject = (m["__err__"] == "IndexError" and sig.startswith("internal-exception:IndexError") and not sig.endswith(":F47")) \
+                        or (m["__err__"] == "unique_vec: sizes differ" and "must be of the same size" in (rec["exc"] or ""))
+                    if not both_reject:
                         res["orc"].append({"signature": sig, "case": ccase, "observed": rec["exc"],
                                            "required": "SolveFailure or normal return"})
                     else:
-                        cnt("index_past_end_rejected_by_both")
+                        cnt("program_rejected_by_both")
                     break       # an exception from inside the library leaves the object in no defined state
                 continue
             names = m["names"]
@@ -379,9 +392,9 @@ def _kind(s):
     if s["k"] == "expr":
         e = s["e"]
         js = json.dumps(e)
-        for k in ("sum", "inl", "notinl", "size", "elem"):
+        for k in ("sum", "product", "inl", "notinl", "size", "elem"):
             if '"k": "%s"' % k in js:
-                return "membership" if k in ("inl", "notinl") else k
+                return "membership" if k in ("inl", "notinl") else ("aggregate" if k in ("sum", "product") else k)
         return "expr"
     return s["k"]
 
